@@ -1,5 +1,5 @@
 (* C17 — decomposition and raw-representation round trips. *)
-From UL Require Import Bytes Subtags LangId Grammar LangIdSpec PackProofs LangIdProofs LangIdAlgebra.
+From UL Require Import Bytes Subtags LangId Ext Grammar LangIdSpec LocaleInv PackProofs LangIdProofs LangIdAlgebra RoundTrip.
 From Coq Require Import String.
 
 Theorem C17_parts_langid : forall x, li_inv x = true ->
@@ -25,6 +25,24 @@ Proof. exact tiny_small. Qed.
 Example C17_ex : le_pack (bs "Latn"%string) = 1853120844%N /\ from_raw 4 1853120844 = bs "Latn"%string.
 Proof. split; vm_compute; reflexivity. Qed.
 
+(* Locale: into_parts hands out the extension STRING; re-parsed as an ExtensionsMap and passed to
+   from_parts it rebuilds the locale *)
+Theorem C17_parts_locale : forall x, loc_inv x = true ->
+  match loc_into_parts x with
+  | ((l, s, r, vs), ext) =>
+    match extmap_from_bytes ext with
+    | Ok e => loc_from_parts l s r vs (Some e) = x
+    | _ => False
+    end
+  end.
+Proof.
+  intros x H. unfold loc_inv in H. apply andb_true_iff in H as [Hi He].
+  unfold loc_into_parts. pose proof (from_parts_into_parts (loc_id x) Hi) as P.
+  destruct (li_into_parts (loc_id x)) as [[[l s] r] vs]. rewrite (extmap_roundtrip _ He).
+  unfold loc_from_parts. rewrite P. destruct x; reflexivity.
+Qed.
+
+Print Assumptions C17_parts_locale.
 Print Assumptions C17_parts_langid.
 Print Assumptions C17_from_parts_any_order.
 Print Assumptions C17_raw_roundtrip.
